@@ -1,5 +1,6 @@
 import Driver.Common
 import LinkVerif.Model.Ser
+import LinkVerif.Model.SerRoots
 
 namespace Driver.C11
 open Go.Proto Model.Rlp Model.Ser Driver
@@ -218,6 +219,7 @@ def step (s : St) (toks : List String) : St × String :=
       let r := encodeBytes s.env t pre v
       ({ s with encoded := s.encoded + (match r with | .ok _ => 1 | _ => 0) }, answerEnc r)
     | _, _, _ => (s, "bad-op")
+  | "pin" :: _ => (s, Model.SerRoots.pinOf ((arg? toks "root").getD ""))   -- pinned descriptors of the roots covered by theorem
   | "cenc" :: _ => (s, s!"same n={s.encoded}")   -- encoding is a function of the value: concurrency cannot change it
   | "dec" :: _ =>
     match (arg? toks "ty").bind parseTyStr, argNat? toks "pre", argHex? toks "bytes" with
